@@ -1,5 +1,5 @@
 (* C07 - No broken bindings: bound properties reject writes; reset / rebinding are clean. *)
-From KDB Require Import Util PropDefs PropProofs.
+From KDB Require Import Util PropDefs PropProofs PropFlags PropLink PropLinkTheorems.
 
 (* every direct write to a property that has a binding raises ReadOnlyProperty and the world is unchanged *)
 Theorem C07_write_rejected :
@@ -32,6 +32,29 @@ Theorem C07_destroy_binding_frame :
   forall w b, w_props (fst (destroy_binding w b)) = w_props w /\ w_obs (fst (destroy_binding w b)) = w_obs w.
 Proof. exact destroy_binding_props. Qed.
 Print Assumptions C07_destroy_binding_frame.
+
+(* after reset() the former binding is dead and owns no subscription in any signal of any property: no later write to a former
+   input can reach it (every invocation of a node slot goes through such a subscription), the property has no updater and the link
+   invariant still holds; pinv holds in every legal history (C10_links_hold_in_every_legal_history) *)
+Theorem C07_reset_disconnects :
+  forall fn rtl fuel w p pr b w',
+    pinv w -> lookup (w_props w) p = Some pr -> pr_updater pr = Some b -> step1 fn rtl fuel w (PReset p) = (w', None) ->
+    pinv w' /\ get_bind w' b = None /\ (forall t pos ser l, ~ slot_at w' t pos ser (SNode b l)) /\
+    (exists pr', lookup (w_props w') p = Some pr' /\ pr_updater pr' = None).
+Proof. exact reset_disconnects. Qed.
+Print Assumptions C07_reset_disconnects.
+
+(* ... and whoever is subscribed anywhere is a leaf of a binding that is alive (so a replaced binding is never evaluated again) *)
+Theorem C07_only_live_bindings_are_subscribed :
+  forall w t pos ser b l, pinv w -> slot_at w t pos ser (SNode b l) -> exists x, get_bind w b = Some x.
+Proof. exact only_live_subscribed. Qed.
+Print Assumptions C07_only_live_bindings_are_subscribed.
+
+(* an updater and its binding refer to each other: a bound property has exactly one live binding, which targets it *)
+Theorem C07_updater_target_mutual :
+  forall w p pr b, pinv w -> lookup (w_props w) p = Some pr -> pr_updater pr = Some b -> exists x, get_bind w b = Some x /\ b_target x = Some p.
+Proof. exact updater_target_mutual. Qed.
+Print Assumptions C07_updater_target_mutual.
 
 (* non-vacuity: bind, rejected write, reset, input change has no influence any more, write accepted *)
 Example C07_example :
